@@ -260,6 +260,8 @@ func (g *Gen) Pick(l []string) string {
 }
 
 var interesting = []string{
+	// text that looks like an escape sequence of some notation (a literal backslash and letters)
+	`\u0026`, `a\u003cb`, `x\u003e`, `\n`, `\\`, `\"q`, `&amp;`, `%00`, `\x41`, `\u00e9`,
 	"", "a", "alice", "bob", "host-1.example.com", "10.0.0.1", "::1", "ab12cd34ef",
 	`"`, `\`, `a"b`, `a\b`, "<script>", "a&b", "tab\there", "nl\nhere", "\x00", "\x1f", "\x7f",
 	"é", "日本語", "😀", "a😀b", " ", " ", "K", "ſ", "user:touch", "x,y", "{}", "[]", "null", " ", "  lead", "trail  ",
